@@ -157,6 +157,37 @@ def IsingS.step {η : Type} (mk : η → BW) (s : IsingS η) : IsingOp → Ising
 def IsingS.run {η : Type} (mk : η → BW) (s : IsingS η) (ops : List IsingOp) : IsingS η :=
   ops.foldl (IsingS.step mk) s
 
+/-! ### two samplers exchanging their operator strings (`swap_manager_and_state`, tempering)
+
+`QmcIsingGraph::swap_manager_and_state` and `Qmc::swap_manager_and_state` exchange `op_manager` and `state`
+(and raise both cutoffs to the larger one); every Hamiltonian-side field — edges, Γ, h / the interaction
+list, the heat-bath flag and the bond-weight table — stays with its sampler. `μ` is the payload that moves
+(operator string + state), `σ` the Hamiltonian-side state (`IsingS η` or `GenS ι`). -/
+
+structure HBPair (σ μ : Type) where
+  a : σ
+  ma : μ
+  b : σ
+  mb : μ
+
+inductive HBPairOp (o : Type) where
+  | left (x : o)     -- a public operation on the first sampler
+  | right (x : o)    -- … on the second
+  | swap             -- `a.swap_manager_and_state(b)`, `b.swap_manager_and_state(a)`, or an accepted swap of `tempering_step`
+  | noswap           -- a `tempering_step` whose swap was rejected
+
+/-- `swap_manager_and_state`: the payloads are exchanged, nothing else -/
+def HBPair.swapSamplers {σ μ : Type} (p : HBPair σ μ) : HBPair σ μ := { p with ma := p.mb, mb := p.ma }
+
+def HBPair.step {σ μ o : Type} (f : σ → o → σ) (p : HBPair σ μ) : HBPairOp o → HBPair σ μ
+  | .left x => { p with a := f p.a x }
+  | .right x => { p with b := f p.b x }
+  | .swap => p.swapSamplers
+  | .noswap => p
+
+def HBPair.run {σ μ o : Type} (f : σ → o → σ) (p : HBPair σ μ) (ops : List (HBPairOp o)) : HBPair σ μ :=
+  ops.foldl (HBPair.step f) p
+
 /-! ### the Ising Hamiltonian as a table Hamiltonian (bond numbering of `qmc_ising.rs`) -/
 
 /-- `two_site_hamiltonian` diagonal entries `|J| ∓ J`, index `outs ++ ins`, msb first -/
